@@ -196,6 +196,8 @@ def date_cell(lay, row):
 
 
 def amount_cell(lay, row):
+    if row.get('amount_text') is not None:
+        return row['amount_text']       # a cell text fixed by the test (e.g. copied from another convention)
     style = row['style']
     if style == 'space' and lay['decimal'] != ',':
         style = 'plain'
